@@ -424,6 +424,12 @@ def run(ctx):
                 view = op.get("doc")
                 listed = bool(view) and any(vm["id"] == rm for vm in view["vms"])
                 maintain["rmvm:" + ("published" if mkid else "nothing" if mcls == "ok" else mcls) + (":listed" if listed else ":not-listed")] += 1
+                if listed and mcls.startswith("err:mgr:validate") and wellformed_nuts(view) is None:
+                    # removeVM_preserves_validity: taking a method out of a well-formed version cannot make the validator of Update refuse
+                    # (the generator's service endpoints are plain URLs: the managed-service check has nothing to resolve)
+                    report("remove-verification-method-refused-by-the-validator-on-a-well-formed-version",
+                           f"Manager.RemoveVerificationMethod({rm}) failed with {mcls} although the resolved version of {op['id']} is well-formed: "
+                           "the document it built is not that version minus the method", i)
                 if mcls == "ok" and mkid is None:
                     if listed:
                         report("remove-verification-method-silently-keeps-the-method",
